@@ -1353,3 +1353,93 @@ def n7(facts, tier):
                       f"`{want[nm][1]}` is not implied by the branch condition: the by-reference decision then compares the caller's "
                       f"memory layout with a layout the implementation does not have"))
         return
+
+
+# ---------------------------------------------------------------------------------------------
+# M8: nested interfaces are verified on the definitions of the negotiated version
+
+def _roots_of_bindings(f, param_roots):
+    """variable -> name of the parameter it was destructured from (patterns over tuples of parameters are followed position-wise)"""
+    from .taint_rules import pat_binds
+    roots = dict(param_roots)
+
+    def root_of(e):
+        e = peel_block(peel(e))
+        if e.get("k") == "Var":
+            return roots.get(e["v"])
+        if e.get("k") in ("Field", "Index", "Cast", "Try"):
+            return root_of(e["e"])
+        return None
+
+    def bind(pat, e):
+        e0 = peel_block(peel(e)) if isinstance(e, dict) else None
+        if e0 is not None and e0.get("k") == "Tuple" and pat.get("k") in ("Leaf", "Tuple") and len(pat.get("subs", [])) == len(e0["es"]):
+            for sp, ee in zip(pat["subs"], e0["es"]):
+                q = sp.get("p", sp) if isinstance(sp, dict) else sp
+                bind(q, ee)
+            return
+        r = root_of(e) if isinstance(e, dict) else None
+        if r is not None:
+            for b in pat_binds(pat):
+                roots.setdefault(b["v"], r)
+
+    for _ in range(3):
+        for x in walk(f["body"]):
+            k = x.get("k")
+            if k == "LetS" and x.get("init") is not None:
+                bind(x["pat"], x["init"])
+            elif k == "Let":
+                bind(x["pat"], x["e"])
+            elif k == "Match":
+                for a in x["arms"]:
+                    bind(a["pat"], x["e"])
+    return roots
+
+
+@rule("M8", ["C10", "C11"], floor=3, doc="arg_layout_compatible verifies nested interfaces (trait objects, closures, futures) on the definitions of the "
+      "NEGOTIATED version: both operands of every verify_backward_compatible (also through local helpers) are destructured from the "
+      "effective-schema parameters, never from the native ones")
+def m8(facts, tier):
+    f = facts.fns.get("savefile_abi::arg_layout_compatible")
+    if f is None:
+        return
+    ps = [p["pat"]["v"] for p in f["params"] if p.get("pat") and p["pat"].get("k") == "Bind"]
+    if len(ps) < 4:
+        return
+    names = {ps[0]: "a_native", ps[1]: "b_native", ps[2]: "a_effective", ps[3]: "b_effective"}
+    roots = _roots_of_bindings(f, names)
+    sites = []
+
+    def collect(g, groots, depth=0):
+        for x in walk(g["body"]):
+            if x.get("k") != "Call":
+                continue
+            c = callee(x) or ""
+            if c.endswith("verify_backward_compatible") and len(x.get("args", [])) >= 3:
+                def r(e):
+                    e = peel_block(peel(e))
+                    return groots.get(e["v"]) if e.get("k") == "Var" else None
+                sites.append((x, r(x["args"][0]), r(x["args"][2]), g))
+            t = (x.get("res") or {}).get("fn") or x.get("fn")
+            h = facts.fns.get(t)
+            if h is not None and h["crate"] == "savefile_abi" and h["id"] != g["id"] and h["id"] != f["id"] and depth < 3 and h.get("body") \
+                    and any((callee(y) or "").endswith("verify_backward_compatible") for y in walk(h["body"]) if y.get("k") == "Call"):
+                hp = [p["pat"]["v"] if p.get("pat") and p["pat"].get("k") == "Bind" else None for p in h["params"]]
+                hr = {}
+                for nm, a in zip(hp, x.get("args", [])):
+                    a0 = peel_block(peel(a))
+                    if nm and a0.get("k") == "Var" and groots.get(a0["v"]):
+                        hr[nm] = groots[a0["v"]]
+                collect(h, _roots_of_bindings(h, hr), depth + 1)
+    collect(f, roots)
+    n = 0
+    for x, ra, rb, g in sites:
+        n += 1
+        ok = ra == "a_effective" and rb == "b_effective"
+        und = ra is None or rb is None
+        yield ob(["C10", "C11"], "M8", f"nested-definition-check#{n}", "pass" if ok else ("undecided" if und else "violation"), where(g, x),
+                 "verify_backward_compatible runs on definitions taken from the effective schemas" if ok else
+                 (f"the operands of verify_backward_compatible could not be traced to a parameter ({ra}, {rb})" if und else
+                  f"verify_backward_compatible runs on definitions taken from `{ra}` / `{rb}`: the two sides' NATIVE definitions are compared "
+                  f"although they legitimately differ between versions (evolved argument or output types), so peers of different versions "
+                  f"are refused - or, for swapped roles, incompatible ones accepted"))
